@@ -101,6 +101,17 @@ func allHTTPCases(run *vk.Run, extra int) []httpCase {
 			}
 		}
 	}
+	// every malformed entity-tag list in both precondition headers, on every shape, with
+	// sufficient credentials on an existing resource (where preconditions are evaluated)
+	for _, sh := range httpShapes {
+		for _, m := range []string{"GET", "HEAD", "PUT", "DELETE", "PATCH"} {
+			for k := range malformedTags {
+				for _, hn := range []string{"im", "inm"} {
+					add(httpCase{Method: m, Shape: sh.name, Seg: "existing", Cred: "admin", Hdr: fmt.Sprintf("tag-malformed/%s/%d", hn, k), Body: "valid"})
+				}
+			}
+		}
+	}
 	r := run.Rand(20)
 	for _, sh := range httpShapes {
 		for _, m := range httpMethods {
@@ -333,8 +344,24 @@ func (h *httpWorld) currentETag(path string) string {
 	return `"0-0"`
 }
 
+var malformedTags = []string{`W/`, `"unterminated`, `,,,`, `W/"`, `"a" "b",`, ` `, "\"\x7f\"", `*, "x"`, `"abc", W/`, `W`, `W/ `, `""`, `W/""`, `"a",`, `W/W/"a"`, `"a", "unterminated`}
+
 func (h *httpWorld) headers(c httpCase, path string, r *rand.Rand) map[string]string {
 	m := map[string]string{}
+	if strings.HasPrefix(c.Hdr, "tag-malformed/") {
+		var hn string
+		var k int
+		if f := strings.Split(c.Hdr, "/"); len(f) == 3 {
+			hn = f[1]
+			fmt.Sscanf(f[2], "%d", &k)
+		}
+		name := "If-Match"
+		if hn == "inm" {
+			name = "If-None-Match"
+		}
+		m[name] = malformedTags[k%len(malformedTags)]
+		return m
+	}
 	switch c.Hdr {
 	case "if-match-star":
 		m["If-Match"] = "*"
@@ -346,7 +373,7 @@ func (h *httpWorld) headers(c httpCase, path string, r *rand.Rand) map[string]st
 		m["If-None-Match"] = `W/"bogus", "other"`
 	case "if-match-malformed":
 		k := []string{"If-Match", "If-None-Match"}[r.IntN(2)]
-		m[k] = []string{`W/`, `"unterminated`, `,,,`, `W/"`, `"a" "b",`, ` `, "\"\x7f\"", `*, "x"`}[r.IntN(8)]
+		m[k] = malformedTags[r.IntN(len(malformedTags))]
 	case "if-match-current":
 		if !c.Raw {
 			m["If-Match"] = h.currentETag(path)
